@@ -323,9 +323,11 @@ def check_distances(ctx):
         ga, gb = all_geos(a), all_geos(b)
         ok = bool(ga) and bool(gb) and all(g[0] == 'FRAC' for g in ga | gb)
         node = e['node']
-        same_t = len(node.args) == 2 and all(isinstance(x, ast.Subscript) for x in node.args) and \
-            norm_text(node.args[0].slice) == norm_text(node.args[1].slice)
-        ctx.ob('R4', fs, node, True if (ok and same_t) else (False if (ga | gb) and not ok else (False if ok and not same_t else None)),
+        fa_, fb_ = (a.frame_idx if a is not None else None), (b.frame_idx if b is not None else None)
+        same_t = True if (fa_ is not None and fa_ == fb_) else (False if (fa_ is not None and fb_ is not None) else None)
+        if same_t is None and len(node.args) == 2 and all(isinstance(x, ast.Subscript) for x in node.args):
+            same_t = True if norm_text(node.args[0].slice) == norm_text(node.args[1].slice) else None
+        ctx.ob('R4', fs, node, True if (ok and same_t) else (False if (ga | gb) and not ok else (False if ok and same_t is False else None)),
                'minimum-image distances between the two species in the same frame' if (ok and same_t) else
                ('distances between coordinates of different frames' if ok else f'distance arguments are {", ".join(geo_text(g) for g in ga | gb)}'))
     # normalisation degree
